@@ -58,6 +58,8 @@ pub struct Ctx {
     pub events: u64,
     /// outcome class a model scenario prescribes for the next Issue / Present call ("" = none)
     pub hexpect: String,
+    /// pair id for the next HolderNew call: two holders built from the two serializations of one (possibly tampered) message
+    pub hpair: u64,
     /// mock_salts build: the salt queue the driver filled for the next Issue call, and a pair id for reproducibility runs
     pub mock_queue: Vec<String>,
     pub mock_pair: u64,
@@ -66,7 +68,7 @@ pub struct Ctx {
 impl Ctx {
     pub fn new(path: &str) -> Ctx {
         std::panic::set_hook(Box::new(|_| {}));
-        Ctx { out: std::io::BufWriter::new(std::fs::File::create(path).expect("trace file")), case: 0, events: 0, hexpect: String::new(), mock_queue: vec![], mock_pair: 0, inflight: format!("{}.inflight", path) }
+        Ctx { out: std::io::BufWriter::new(std::fs::File::create(path).expect("trace file")), case: 0, events: 0, hexpect: String::new(), hpair: 0, mock_queue: vec![], mock_pair: 0, inflight: format!("{}.inflight", path) }
     }
     /// The call about to be made, kept in a side file: if the whole process dies (abort, stack overflow) or hangs, the
     /// orchestrator attributes that outcome to this call.
@@ -266,7 +268,8 @@ pub fn holder_new(ctx: &mut Ctx, inst: &str, raw: &str, fmt: Fmt) -> Out<SDJWTHo
     let r = raw.to_string();
     ctx.begin("holder.new", raw);
     let res = guard(|| SDJWTHolder::new(r, fmt.lib()));
-    let line = obj(&[("ev", qs("HolderNew")), ("inst", qs(inst)), ("fmt", qs(fmt.name())), ("in", msg::msg_json_raw(raw, fmt)), ("out", out_json(&res, vec![]))]);
+    let hp = std::mem::take(&mut ctx.hpair);
+    let line = obj(&[("ev", qs("HolderNew")), ("inst", qs(inst)), ("fmt", qs(fmt.name())), ("in", msg::msg_json_raw(raw, fmt)), ("pair", hp.to_string()), ("out", out_json(&res, vec![]))]);
     ctx.emit(line);
     res
 }
